@@ -118,6 +118,24 @@ Theorem recode_transparent_refuted :
     = Rows [([1; 5; 10], Some 0, Some 0); ([2; 6; 20], Some 1, Some 1)].
 Proof. exact BroadcastImpl.recode_transparent_refuted. Qed.
 
+(* the dispatch of Broadcaster.broadcast in front of it: only a Series with exactly one, unnamed, index level is a set of
+   parameters (its keys become columns); every other object -- DataFrame, several levels even if all unnamed, a level
+   with a name however it looks -- is joined as it is, keeps all its index levels in the result *)
+Theorem paramset_iff k l : is_paramset k l = true <-> k = KSeries /\ l = [None].
+Proof. exact (BroadcastImpl.paramset_iff k l). Qed.
+Theorem row_indexed_joined_as_is (V : Type) k (w : V) (s : state V) :
+  k = KFrame \/ length (ulv (st_obj s)) <> 1%nat \/ (exists n, In (Some n) (ulv (st_obj s))) ->
+  as_joined k w (st_obj s) = st_obj s /\ broadcast_top k w s = bcast_impl s.
+Proof. exact (BroadcastImpl.row_indexed_joined_as_is V k w s). Qed.
+Theorem object_levels_survive (V : Type) k (w : V) (s : state V) :
+  is_paramset k (ulv (st_obj s)) = false ->
+  (length (ulv (st_obj s)) <= length (r_levels (broadcast_top k w s)))%nat.
+Proof. exact (BroadcastImpl.object_levels_survive V k w s). Qed.
+Theorem paramset_on_parameter_levels (V : Type) (w : V) (s : state V) :
+  is_paramset KSeries (ulv (st_obj s)) = true ->
+  r_levels (broadcast_top KSeries w s) = ulv (st_prm s).
+Proof. exact (BroadcastImpl.paramset_on_parameter_levels V w s). Qed.
+
 Print Assumptions same_index.
 Print Assumptions rows_carry_restricted_value.
 Print Assumptions no_object_row_lost.
@@ -136,3 +154,7 @@ Print Assumptions table_complete.
 Print Assumptions recode_transparent.
 Print Assumptions impl_rows_carry_restricted_value.
 Print Assumptions recode_transparent_refuted.
+Print Assumptions paramset_iff.
+Print Assumptions row_indexed_joined_as_is.
+Print Assumptions object_levels_survive.
+Print Assumptions paramset_on_parameter_levels.
